@@ -21,9 +21,14 @@ import time
 ROOT = os.path.dirname(os.path.dirname(os.path.abspath(__file__)))
 TLA = os.path.join(ROOT, "tla")
 HARNESS = os.environ.get("VERIF_HARNESS") or os.path.join(ROOT, "harness")
-WORK = os.path.join(ROOT, "work")
-REPLAYS = os.path.join(ROOT, "replays")
-EVIDENCE = os.path.join(ROOT, "evidence")
+# VERIF_SCRATCH redirects everything a run writes (work dirs, replays, evidence) — used when a
+# check is run against a mutated scratch copy so that /verif's own evidence is not overwritten.
+_SCRATCH = os.environ.get("VERIF_SCRATCH")
+WORK = os.path.join(_SCRATCH or ROOT, "work")
+REPLAYS = os.path.join(_SCRATCH or ROOT, "replays")
+EVIDENCE = os.path.join(_SCRATCH or ROOT, "evidence")
+CACHE = os.path.join(ROOT, "work", "cache")          # TLC results do not depend on /repo: shared
+PINNED = os.path.join(ROOT, "replays", "pinned")
 KNOWN = os.path.join(ROOT, "known_findings.json")
 TLA_JAR = "/opt/veriftools/tla/tla2tools.jar"
 TLA_CP = TLA_JAR + ":/opt/veriftools/tla/CommunityModules-deps.jar"
@@ -139,7 +144,7 @@ class Ctx:
         ckey = None
         if cache:
             ckey = self._tlc_cache_key(module, cfg_path, simulate, depth, env, extra)
-            cpath = os.path.join(WORK, "cache", "tlc-%s.json" % ckey)
+            cpath = os.path.join(CACHE, "tlc-%s.json" % ckey)
             if os.path.exists(cpath):
                 try:
                     d = json.load(open(cpath))
@@ -211,12 +216,12 @@ class Ctx:
         self.states += r.states
         self.transitions += r.generated
         if ckey and not r.violated:
-            os.makedirs(os.path.join(WORK, "cache"), exist_ok=True)
+            os.makedirs(CACHE, exist_ok=True)
             d = {k: v for k, v in r.__dict__.items() if k != "output"}
             d["output"] = ""
-            tmp = os.path.join(WORK, "cache", "tlc-%s.json.%d" % (ckey, os.getpid()))
+            tmp = os.path.join(CACHE, "tlc-%s.json.%d" % (ckey, os.getpid()))
             json.dump(d, open(tmp, "w"))
-            os.replace(tmp, os.path.join(WORK, "cache", "tlc-%s.json" % ckey))
+            os.replace(tmp, os.path.join(CACHE, "tlc-%s.json" % ckey))
         return r
 
     def _tlc_cache_key(self, module, cfg, simulate, depth, env, extra):
